@@ -34,6 +34,7 @@ import (
 	"strconv"
 	"strings"
 	"sync"
+	"sync/atomic"
 	"syscall"
 	"time"
 
@@ -125,6 +126,7 @@ type pool struct {
 	results []*Result
 	mu      sync.Mutex
 	deaths  int
+	capped  bool
 }
 
 type tail struct {
@@ -167,7 +169,7 @@ func (p *pool) runShard(k int, shardPath string, idxs []int) {
 		var lastLine sync.Mutex
 		last := time.Now()
 		stop := make(chan struct{})
-		hung := false
+		var hung, expired atomic.Bool
 		go func() {
 			t := time.NewTicker(2 * time.Second)
 			defer t.Stop()
@@ -179,8 +181,13 @@ func (p *pool) runShard(k int, shardPath string, idxs []int) {
 					lastLine.Lock()
 					idle := time.Since(last)
 					lastLine.Unlock()
+					if p.r.Expired() {
+						expired.Store(true)
+						_ = cmd.Process.Kill()
+						return
+					}
 					if idle > hangTimeout {
-						hung = true
+						hung.Store(true)
 						_ = cmd.Process.Kill()
 						return
 					}
@@ -191,6 +198,11 @@ func (p *pool) runShard(k int, shardPath string, idxs []int) {
 		sc.Buffer(make([]byte, 1<<20), 64<<20)
 		current, done, finished := -1, 0, false
 		for sc.Scan() {
+			if p.r.Expired() {
+				expired.Store(true)
+				_ = cmd.Process.Kill()
+				break
+			}
 			lastLine.Lock()
 			last = time.Now()
 			lastLine.Unlock()
@@ -220,6 +232,12 @@ func (p *pool) runShard(k int, shardPath string, idxs []int) {
 		werr := cmd.Wait()
 		close(stop)
 		_ = os.RemoveAll(scratch)
+		if expired.Load() {
+			p.mu.Lock()
+			p.capped = true
+			p.mu.Unlock()
+			return
+		}
 		if finished && werr == nil {
 			return
 		}
@@ -233,7 +251,7 @@ func (p *pool) runShard(k int, shardPath string, idxs []int) {
 		st := stderr.String()
 		res := &Result{I: current, Evals: 1}
 		switch {
-		case hung:
+		case hung.Load():
 			res.viol("no-return/hang:"+c.Family+":"+c.Kind, "worker made no progress for %v inside case: %s", hangTimeout, c.describe())
 			res.class("%s:%s:worker-hung", c.Family, c.Kind)
 		case strings.Contains(st, "out of memory") || strings.Contains(st, "cannot allocate memory") || strings.Contains(st, "runtime: cannot map pages"):
@@ -353,7 +371,7 @@ func (p *pool) report() {
 	for i := range p.cases {
 		c := &p.cases[i]
 		fam := c.Family
-		if c.Family == "json-node" || c.Family == "oci-layout" || c.Family == "plugin-output" || c.Family == "envelope-json-node" || c.Family == "envelope-byte-mutation" {
+		if c.Family != "config-matrix" && c.Family != "nil-arguments" && c.Family != "crl-der-byte-mutation" {
 			fam += ":" + c.Kind
 		}
 		s := stats[fam]
@@ -390,7 +408,11 @@ func (p *pool) report() {
 		}
 	}
 	if missing > 0 {
-		r.Infra("%d cases have no result", missing)
+		if p.capped {
+			r.Capped(fmt.Sprintf("internal deadline: %d of %d cases not run (cases are dealt round-robin to the workers, so the unfinished ones are the tail of the case list: see space_per_family)", missing, len(p.cases)))
+		} else {
+			r.Infra("%d cases have no result", missing)
+		}
 	}
 	names := make([]string, 0, len(stats))
 	for k := range stats {
@@ -407,7 +429,7 @@ func (p *pool) report() {
 	r.Extra["worker_deaths"] = p.deaths
 	r.Extra["positive_controls"] = controls
 	r.Extra["positive_controls_accepted"] = controlsOK
-	if r.Replay == "" && (controls == 0 || controlsOK != controls) {
+	if r.Replay == "" && !p.capped && (controls == 0 || controlsOK != controls) {
 		r.Infra("positive controls: %d of %d honest configurations accepted", controlsOK, controls)
 	}
 }
@@ -444,6 +466,11 @@ func main() {
 	}
 	var cases []Case
 	p := &pool{r: r}
+	if r.Thorough() {
+		r.SetDeadline(10 * time.Minute)
+	} else {
+		r.SetDeadline(40 * time.Second)
+	}
 	if r.Replay != "" {
 		var rc replayCase
 		if err := r.LoadReplay(&rc); err != nil || rc.Fixture == nil {
@@ -453,7 +480,8 @@ func main() {
 		p.fx = rc.Fixture
 		cases = []Case{rc.Case}
 	} else {
-		w := buildWorld()
+		w, created := loadOrBuildWorld()
+		r.Extra["fixture_created"] = created.UTC().Format(time.RFC3339)
 		p.fx = &w.Fixture
 		cases = append(cases, matrixCases()...)
 		for _, l := range nilArgCases {
@@ -461,8 +489,8 @@ func main() {
 		}
 		cases = append(cases, envelopeByteCases(w, r.Thorough())...)
 		cases = append(cases, envelopeNodeCases(w)...)
-		cases = append(cases, documentCases(w)...)
-		cases = append(cases, layoutCases(w)...)
+		cases = append(cases, documentCases(w, r.Thorough())...)
+		cases = append(cases, layoutCases(w, r.Thorough())...)
 		cases = append(cases, pluginCases(w, r.Thorough())...)
 		r.Extra["matrix_dimensions"] = map[string]any{"construction": constructions, "plugin_manager": managers, "revocation": revocations, "level": levels, "placement": placements,
 			"entry": append(append([]string{}, ociEntries...), blobEntries...), "signature": append(append([]string{}, envelopeSigs...), bareSigs...), "plugin_demanded": []bool{false, true}, "reference": references}
